@@ -66,7 +66,26 @@ def main():
     meta["confirmed"] = confirmed
     # run the checks against the patched worktree from a scratch copy of /verif
     sh("git checkout -- . ; rm -f src/tests/seed_demo.rs", cwd=wt)
-    sh("git apply %s" % patch, cwd=wt)
+    # the checks run against /repo's CURRENT head plus the patch (the agent's worktree may be older than the hooks the
+    # harness needs): a fresh scratch worktree, removed afterwards
+    cw = "/tmp/vw-%s" % name.replace("/", "-")
+    sh("git -C /repo worktree remove --force %s" % cw)
+    rc, out = sh("git -C /repo worktree add --detach %s HEAD" % cw)
+    if rc != 0:
+        print("worktree failed", out)
+        sys.exit(2)
+    rc, out = sh("git apply %s" % patch, cwd=cw)
+    if rc != 0:
+        rc, out = sh("git apply -3 %s" % patch, cwd=cw)
+        if rc != 0:
+            print("PATCH DOES NOT APPLY TO /repo HEAD", out)
+            sh("git -C /repo worktree remove --force %s" % cw)
+            sys.exit(2)
+        # keep a patch that applies to the current head
+        patch_head = sh("git diff HEAD", cwd=cw)[1]
+        open(os.path.join(seed, "patch.diff"), "w").write(patch_head)
+    meta["checked_against"] = sh("git rev-parse --short HEAD", cwd=cw)[1].strip()
+    wt_checks = cw
     scratch = "/tmp/vf-%s" % name.replace("/", "-")
     shutil.rmtree(scratch, ignore_errors=True)
     sh("rsync -a --exclude out --exclude harness/target --exclude .git --exclude harness/repo_link %s/ %s/" % (VERIF, scratch))
@@ -74,7 +93,7 @@ def main():
     for p in props:
         t0 = time.time()
         tier = os.environ.get("SEED_TIER", "quick")
-        rc, out = sh("./check %s --tier %s" % (p, tier), cwd=scratch, env={"TCHERAN_REPO": wt}, timeout=6000)
+        rc, out = sh("./check %s --tier %s" % (p, tier), cwd=scratch, env={"TCHERAN_REPO": wt_checks}, timeout=6000)
         viol = [l for l in out.splitlines() if l.startswith("VIOLATION")]
         detail = [l for l in out.splitlines() if l.startswith("  ")][:3]
         results[p] = {"exit": rc, "violations": len(viol), "wall_s": round(time.time() - t0, 1), "first": detail,
@@ -85,6 +104,7 @@ def main():
     meta["caught_by"] = [p for p, r in results.items() if r["exit"] == 1 and r["violations"] > 0]
     sh("git checkout -- . ; rm -f src/tests/seed_demo.rs", cwd=wt)
     shutil.rmtree(scratch, ignore_errors=True)
+    sh("git -C /repo worktree remove --force %s" % cw)
     # record
     dst = os.path.join(VERIF, "seeded", name)
     os.makedirs(dst, exist_ok=True)
